@@ -253,7 +253,15 @@ def setup(ctx):
         # and by the OUTCOME: what the later calls emit lies EARLIER than in the single call, by the lengths of the bars the stalled calls
         # did not pass (H.d19_outcome); a result that is late, or early by another amount, is not this finding
         tracks = [[tuple(m) for m in t] for t in f["input"]["tracks"]]
-        if not (f["oracle"] == "chunked" and f["clause"] in ("notes", "bar-grid", "signatures") and H.stalled_chunk_plain(tracks, f["input"]["cuts"])):
+        if f["clause"] not in ("notes", "bar-grid", "signatures"):
+            return False
+        if f["oracle"] == "chunked_split":
+            # chunks cut by Sequence.split, piece scaled by k (soak seed 5): the same defect — a call returns on its last event onset's bar —
+            # with the class of split chunks (a note may sound across the chunk's inner bar lines up to the cut: H.split_call_shifts) and the
+            # amounts scaled by k; found by a thorough soak, VERIF_SEED=5 (3/8, cut after a bar holding one whole-bar note, ppqn 48)
+            k = f["input"]["scale"]
+            return H.d19_outcome(f["detail"], [s_ * k for s_ in H.split_call_shifts(tracks, f["input"]["cuts"])])
+        if not (f["oracle"] == "chunked" and H.stalled_chunk_plain(tracks, f["input"]["cuts"])):
             return False
         return H.d19_outcome(f["detail"], H.d19_shifts(tracks, f["input"]["cuts"]))
     ctx.kf_predicates["D19"] = kf_d19
@@ -262,6 +270,15 @@ def setup(ctx):
 D19_EXAMPLE = {"cfg": dict(num_tracks=1), "cuts": [1], "tracks": [[
     G.pm(TIMESIG, 0, None, num=3, den=8), G.pm(ON, 0, None, note=60, vel=64), G.pm(WAIT, 0, 36), G.pm(OFF, 0, None, note=60),
     G.pm(ON, 0, None, note=62, vel=64), G.pm(WAIT, 0, 36), G.pm(OFF, 0, None, note=62)]]}
+
+
+# D19 through chunks cut by Sequence.split (found by a thorough soak, VERIF_SEED=5): the recorded example at ppqn 48, and the shape only split
+# chunks have — a note struck in the middle of the first 2/8 bar sounds exactly to the cut after the second bar, so the call returns at the end
+# of the FIRST bar (its last onset's bar), one bar short
+D19_SPLIT_EXAMPLE = {"cfg": dict(num_tracks=1), "cuts": [1], "scale": 2, "tracks": D19_EXAMPLE["tracks"]}
+D19_SPLIT_TAIL_EXAMPLE = {"cfg": dict(num_tracks=1), "cuts": [2], "scale": 1, "tracks": [[
+    G.pm(TIMESIG, 0, None, num=2, den=8), G.pm(WAIT, 0, 12), G.pm(ON, 0, None, note=60, vel=64), G.pm(WAIT, 0, 36), G.pm(OFF, 0, None, note=60),
+    G.pm(WAIT, 0, 6), G.pm(ON, 0, None, note=62, vel=64), G.pm(WAIT, 0, 12), G.pm(OFF, 0, None, note=62), G.pm(WAIT, 0, 6)]]}
 
 
 # audit round 3, O8: a signature change in a later bar must come back at its tick, in the single call and in the chunked calls
@@ -273,6 +290,8 @@ SIG_EXAMPLE = {"cfg": dict(num_tracks=1), "cuts": [1], "tracks": [[
 def generate(ctx):
     rng = ctx.rng
     ctx.check("chunked", D19_EXAMPLE)
+    ctx.check("chunked_split", D19_SPLIT_EXAMPLE)
+    ctx.check("chunked_split", D19_SPLIT_TAIL_EXAMPLE)
     ctx.check("chunked", SIG_EXAMPLE)
     prev = None
     for i in range(ctx.n(60, 1200)):
@@ -305,6 +324,8 @@ def generate(ctx):
             ctx.check("chunked", {"cfg": kw, "tracks": piece["tracks"], "cuts": cuts})
         if i % 2 == 0 and not extra:
             ctx.count("chunks-by-Sequence.split")
+            if H.split_call_shifts(piece["tracks"], parts[0]):
+                ctx.count("chunks-by-Sequence.split:a-call-falls-short(D19 class)")
             ctx.check("chunked_split", {"cfg": kw, "tracks": piece["tracks"], "cuts": parts[0], "scale": rng.choice([1, 2, 2, 4])})
         prev = {"cfg": kw, "tracks": piece["tracks"]}
         ctx.count("bars:%d" % nb)
